@@ -22,6 +22,8 @@ type Profile struct {
 	OddPct    int    // conversations whose registry sends odd / malformed challenges
 	ConcPct   int    // conversations played as an interleaved batch
 	HoldPct   int    // conversations in which a token server keeps a call waiting while others arrive (gen_hold.go)
+	CfgPct    int    // conversations in which a config lookup is slow while other calls arrive (gen_cfg.go)
+	HostPct   int    // requests whose Host field differs from URL.Host (a caller-supplied Host header)
 	BodyPct   int    // requests that carry a body
 	Unlimited bool   // allow the unlimited scope as required / desired scope
 }
@@ -63,10 +65,22 @@ func bearer(realm string, variant int) string {
 		return `Bearer realm="` + realm + `",service="svc"`
 	case 3:
 		return `BEARER  Realm="` + realm + `" , Scope="%S" , Service=svc`
-	default:
+	case 4:
 		return `Bearer scope="%S",service=svc,realm="` + realm + `"`
+	// parameter names are case-insensitive one by one (RFC 7235 2.1)
+	case 5:
+		return `Bearer realm="` + realm + `",service="svc",Scope="%S"`
+	case 6:
+		return `Bearer REALM="` + realm + `",scope="%S"`
+	case 7:
+		return `bearer realm="` + realm + `",SCOPE="%S",Service="svc"`
+	default:
+		return `Bearer Realm="` + realm + `",SERVICE=svc,sCoPe="%S"`
 	}
 }
+
+// nBearer is the number of bearer challenge spellings.
+const nBearer = 9
 
 // odd challenge sets: every RFC 7235 shape the parser distinguishes, and broken ones
 func oddChallenge(r *rand.Rand, realm string) []string {
@@ -130,7 +144,7 @@ func genHosts(r *rand.Rand, p *Profile, odd bool) ([]HostCfg, []RealmCfg) {
 		switch n := r.Intn(10); {
 		case n < 7:
 			h.Mode = "bearer"
-			h.Challenge = []string{bearer(realm, r.Intn(5))}
+			h.Challenge = []string{bearer(realm, r.Intn(nBearer))}
 		case n < 9:
 			h.Mode = "basic"
 			h.Challenge = []string{pick(r, []string{`Basic realm="reg"`, `Basic`, `BASIC realm=reg`})}
@@ -196,13 +210,54 @@ func genReq(r *rand.Rand, p *Profile, hosts []HostCfg, focus int) *Req {
 	if r.Intn(25) == 0 {
 		q.Auth = pick(r, []string{"Bearer caller-token", "Basic Y2FsbGVyOnB3", "Custom zzz"})
 	}
+	if p.HostPct > 0 && r.Intn(100) < p.HostPct {
+		// the caller overrides the Host header: with another registry's name (one the transport
+		// holds credentials for, mostly), an unknown name, or nothing at all
+		switch r.Intn(8) {
+		case 0:
+			q.HostHdr = "-"
+		case 1:
+			q.HostHdr = "elsewhere.example"
+		default:
+			if o := pick(r, hosts).Host; o != q.Host {
+				q.HostHdr = o
+			} else {
+				q.HostHdr = hosts[(focus+1)%len(hosts)].Host
+			}
+		}
+	}
 	return q
+}
+
+// narrower derives from a call whose required or desired scope was built from several resource
+// scopes a call that requires just one of them (the last ones in the list as often as the first:
+// whatever order the token's scope keeps them in, each has to be found).
+func narrower(r *rand.Rand, last *Req) *Req {
+	if last == nil {
+		return nil
+	}
+	var items [][3]string
+	for _, sp := range []ScopeSpec{last.Required, last.Want} {
+		if sp.Kind == "new" {
+			items = append(items, sp.Items...)
+		}
+	}
+	if len(items) < 2 {
+		return nil
+	}
+	it := pick(r, items)
+	text := it[0] + ":" + it[1] + ":" + it[2]
+	return &Req{Host: last.Host, Required: ScopeSpec{Kind: "new", Items: [][3]string{it}}, Want: ScopeSpec{Kind: "zero"},
+		Need: text, Chal: text, Body: "none"}
 }
 
 var sleeps = []int{300, 600, 900, 1200, 2100}
 
 // GenCase builds one conversation.
 func GenCase(r *rand.Rand, p *Profile) *CaseIn {
+	if p.CfgPct > 0 && r.Intn(100) < p.CfgPct {
+		return genCfg(r, p)
+	}
 	if p.HoldPct > 0 && r.Intn(100) < p.HoldPct {
 		return genHold(r, p)
 	}
@@ -251,6 +306,9 @@ func GenCase(r *rand.Rand, p *Profile) *CaseIn {
 				// the same again: the cache should answer
 				cp := *last
 				q = &cp
+			} else if nq := narrower(r, last); nq != nil && r.Intn(3) == 0 {
+				// one piece of what the previous call asked for: the cache should answer as well
+				q = nq
 			}
 			last = q
 			in.Steps = append(in.Steps, Step{Op: "start", ID: id, Req: q}, Step{Op: "resume", ID: id}, Step{Op: "resume", ID: id})
@@ -394,7 +452,16 @@ func emitRun(out *hx.Out, in *CaseIn, obs *Observed) {
 	}
 	out.Count("class:" + in.Class)
 	out.Count(fmt.Sprintf("events:%d0s", len(obs.Events)/10))
+	if obs.CfgWaited > 0 {
+		out.Count(fmt.Sprintf("cfg-lookups-waited:%d", obs.CfgWaited))
+	}
 	for _, e := range obs.Events {
+		if e.Kind == "start" && e.Req.HostHdr != "" {
+			out.Count("req:host-override")
+		}
+		if e.Kind == "start" && e.Req.Body == "get" {
+			out.Count("req:body-with-getbody")
+		}
 		if e.Kind == "send" {
 			out.Count("msg:" + e.Msg.Kind + ":" + e.Msg.Auth.Kind)
 			if e.Msg.Kind != "reg" {
